@@ -125,6 +125,7 @@ pub fn run(rep: &mut Report, thorough: bool) {
         for &n in &counts {
             // ---- target: n-1 sentinel threads with shaped stacks
             let mut b = Builder::new();
+            b.spec.dir = crate::target::new_dir("c06");
             let exec = b.anon(1, 4, 5, Fill::Pattern);
             let exec_addr = b.spec.regions[exec].addr;
             let mut offs = Vec::new();
@@ -152,7 +153,13 @@ pub fn run(rep: &mut Report, thorough: bool) {
                     ((which_page * PAGE + in_page) as i64, 0)
                 };
                 offs.push(sp_offset);
-                let shape = StackShape { pages, sp_offset, guard_mapping_pages: guard_map, fill_pattern: true, slots: Vec::new(), prot: 6 };
+                // some stacks are private FILE mappings with an inaccessible tail of the same file
+                // right above them: the writer's merged mapping reaches over unreadable memory
+                let tail = if !guard && rng.chance(1, 5) { *rng.pick(&[1u64, 8]) } else { 0 };
+                if tail > 0 {
+                    rep.count("file_backed_stacks_with_inaccessible_tail", 1);
+                }
+                let shape = StackShape { pages, sp_offset, guard_mapping_pages: guard_map, fill_pattern: true, slots: Vec::new(), prot: 6, noaccess_file_tail_pages: tail };
                 let mode = if k % 7 == 3 { Mode::Spin } else { Mode::Pause };
                 b.sentinel(&mut rng, mode, &shape, None, None);
             }
